@@ -456,6 +456,20 @@ def h10(params, zero):
     return factory
 
 
+def _claim_context(context, owner):
+    """a user evaluate method narrows the scope of the EvaluationContext it was handed (the context built for THIS key of THIS
+    evaluation); finding it already claimed means the object is shared with another key / evaluation"""
+    if context is not None:
+        if context.scope is not None:
+            raise RuntimeError(f"context of {owner} already used by {context.scope}")
+        context.scope = owner
+
+
+def _check_context(context, owner):
+    if context is not None and context.scope != owner:
+        raise RuntimeError(f"context of {owner} was changed to {context.scope} while the method was suspended")
+
+
 H11_RC_EXPRS = ["[2] U ([1] O [3]) U [501]", "[3] U ([2] O [1]) U [501]", "([1] O [3]) U [2]", "[1] U ([2] O [3])"]  # asymmetric in every pair of keys
 
 
@@ -486,12 +500,16 @@ def h11(params, zero):
                 await sched.point(what_)
 
         def rc_method(key, is_async):
+            # the methods WORK with the EvaluationContext they are handed: narrow its scope to their key, suspend, use it again
             if is_async:
                 async def evaluate(self, evaluatable_data, context):
+                    _claim_context(context, key)
                     await point(f"rc:{key}")
+                    _check_context(context, key)
                     return _I.STATE[rcv[key]]
             else:
                 def evaluate(self, evaluatable_data, context):
+                    _claim_context(context, key)
                     return _I.STATE[rcv[key]]
             return evaluate
 
@@ -617,7 +635,9 @@ def h13(params, zero):
 
         def rc_method(k):
             async def evaluate(self, evaluatable_data, context):
+                _claim_context(context, (evaluatable_data.body["i"], k))
                 await point(f"e{evaluatable_data.body['i']}/rc:{k}")
+                _check_context(context, (evaluatable_data.body["i"], k))
                 return _I.STATE[evaluatable_data.body["rc"][k]]
             return evaluate
 
